@@ -249,6 +249,25 @@ def runFrom (cfg : Cfg) : St → List Line → List OutEv
 
 def run (cfg : Cfg) (lines : List Line) : List OutEv := runFrom cfg {} lines
 
+/-! ### Is the body a completion stream at all?
+
+`TransformStreamingResponse` (repaired, fixes/C05-stream-not-a-completion.patch) returns an error,
+before anything is written, for a body in which no line is a chunk (a `data: ` payload that parses
+as a JSON object) and that carries no `[DONE]` marker: such a body is not a completion stream
+(a JSON document, a truncated object, an HTML error page). The pinned translator made up an empty
+message for it. `sawDone` is the harness's statement about the raw lines (a `[DONE]` line is
+`Line.ignored` for everything else the translator does). -/
+
+def isStream (sawDone : Bool) (lines : List Line) : Bool :=
+  sawDone || lines.any (fun l => match l with | .chunk _ => true | .ignored => false)
+
+/-- `.pinned`: every body is translated; `.fixed`: non-streams are refused. -/
+def activeEmptyStream : Variant := .fixed
+
+/-- `none` = an error is returned and nothing is written. -/
+def transform (v : Variant) (cfg : Cfg) (sawDone : Bool) (lines : List Line) : Option (List OutEv) :=
+  if v = .fixed && !isStream sawDone lines then none else some (run cfg lines)
+
 /-! ### Buffered path -/
 
 /-- One element of `message.tool_calls` for which `convertToToolUse` succeeded (`function` is an
